@@ -128,14 +128,16 @@ type Backend struct {
 
 	// Script for the next callbacks: one queue per callback kind, consumed in
 	// call order; an empty queue means "accept".
-	NewSessionErrs []error
-	MailErrs       []error
-	RcptErrs       []error
-	PanicIn        string     // "Mail", "Rcpt", "NewSession": the next such call panics (one shot)
-	DataPlans      []DataPlan // consumed in order by Data begin; default plan when empty
-	DefaultPlan    DataPlan
-	AuthErr        error        // returned by Auth(mech)
-	AuthPlans      [][]AuthStep // one plan per Auth(mech) call; default: done at once
+	NewSessionErrs   []error
+	MailErrs         []error
+	RcptErrs         []error
+	NewSessionGate   string     // gate NewSession waits at before it returns its session
+	NewSessionReject bool       // NewSession calls Conn.Reject and returns a session nevertheless
+	PanicIn          string     // "Mail", "Rcpt", "NewSession": the next such call panics (one shot)
+	DataPlans        []DataPlan // consumed in order by Data begin; default plan when empty
+	DefaultPlan      DataPlan
+	AuthErr          error        // returned by Auth(mech)
+	AuthPlans        [][]AuthStep // one plan per Auth(mech) call; default: done at once
 
 	gates map[string]chan struct{}
 	// Waiting lists the gates some callback is currently blocked on.
@@ -409,7 +411,12 @@ func (b *Backend) NewSession(c *smtp.Conn) (smtp.Session, error) {
 	}
 	b.log(Call{Name: "NewSession", Sess: s.id, Hostname: host, TLS: isTLS})
 	auth, lmtp := b.AuthCapable, b.LMTPCapable
+	ng, rej := b.NewSessionGate, b.NewSessionReject
 	b.mu.Unlock()
+	if rej {
+		c.Reject() // the backend turns the connection away itself ... and returns a session all the same
+	}
+	b.gate(ng) // (a slow NewSession: the harness decides when it returns)
 	switch {
 	case auth && lmtp:
 		return &sessAL{sessA{s}}, nil
